@@ -35,6 +35,8 @@ type WorldOpts struct {
 	MaxTinyDocs          int
 	FewFields            bool
 	AllowNoID            bool
+	NoIDPct              int  // percentage of builds without the injected _id field (default 5)
+	FewTerms             bool // small vocabulary: dense postings lists
 }
 
 func (o *WorldOpts) defaults() {
@@ -86,6 +88,9 @@ func genSchema(t *rapid.T, o *WorldOpts) *schema {
 		}
 	}
 	nt := rapid.IntRange(2, 9).Draw(t, "nterms")
+	if o.FewTerms {
+		nt = rapid.IntRange(1, 3).Draw(t, "nterms-few")
+	}
 	t0 := rapid.IntRange(0, len(vocab)-1).Draw(t, "term0")
 	for i := 0; i < nt; i++ {
 		s.terms = append(s.terms, vocab[(t0+i*3)%len(vocab)])
@@ -265,7 +270,11 @@ func genWorldWith(t *rapid.T, s *schema, o *WorldOpts) *WorldDef {
 			Mode:  rapid.SampledFrom(chunkModes).Draw(t, "mode"),
 			Store: rapid.SampledFrom(o.Stores).Draw(t, "store"),
 		}
-		if o.AllowNoID && rapid.IntRange(0, 19).Draw(t, "noid") == 0 {
+		noidPct := o.NoIDPct
+		if noidPct == 0 {
+			noidPct = 5
+		}
+		if o.AllowNoID && rapid.IntRange(0, 99).Draw(t, "noid") < noidPct {
 			sd.NoID = true
 		}
 		wd.Segs = append(wd.Segs, sd)
